@@ -35,7 +35,7 @@ func TestVerifC18Promotion(t *testing.T) {
 				c.ActivityStream.PublishTimeout = 2 * time.Second
 				c.CursorsStream.Partitions = cur
 			})
-			defer func() { s.Stop(); cleanupStorage(t) }()
+			defer func() { vC18Settle(s); s.Stop(); cleanupStorage(t) }()
 			var p *partition
 			for dl := time.Now().Add(15 * time.Second); time.Now().Before(dl); time.Sleep(10 * time.Millisecond) {
 				if p = s.metadata.GetPartition(activityStream, 0); p != nil && p.IsLeader() && p.log != nil {
